@@ -35,6 +35,8 @@ def scan_trusted(gen):
     text = gen.lines
     for i, ln in enumerate(text):
         code = ln.split('//')[0]
+        if 'proved-by-cases' in ln:
+            continue
         for m in TRUST_PAT.finditer(code):
             # name the item: look ahead for the next `fn name` / `struct name` / `type`
             name = ''
@@ -106,12 +108,13 @@ def template_functions(gen):
     return res
 
 
-def run_unit(template_path, repo_root, workdir, rlimit=60, extra_args=None, mutate=None, threads=8):
+def run_variant(template_path, repo_root, workdir, rlimit=60, extra_args=None, mutate=None, threads=8, variant='main'):
     unit = os.path.splitext(os.path.basename(template_path))[0]
     res = UnitResult(unit)
+    res.variant = variant
     t0 = time.time()
     try:
-        gen = extract.instantiate(template_path, repo_root)
+        gen = extract.instantiate(template_path, repo_root, variant)
     except extract.ExtractError as e:
         res.status, res.reason = 'inconclusive', 'extraction: %s' % e
         return res
@@ -120,7 +123,7 @@ def run_unit(template_path, repo_root, workdir, rlimit=60, extra_args=None, muta
     res.gen = gen
     res.trusted = scan_trusted(gen)
     os.makedirs(workdir, exist_ok=True)
-    out_path = os.path.join(workdir, unit + '.rs')
+    out_path = os.path.join(workdir, unit + ('' if variant == 'main' else '__' + variant) + '.rs')
     with open(out_path, 'w') as f:
         f.write(gen.text())
     res.out_path = out_path
@@ -244,3 +247,46 @@ def run_unit(template_path, repo_root, workdir, rlimit=60, extra_args=None, muta
     if failed_fns or res.n_errors:
         res.status = 'failed'
     return res
+
+
+def run_unit(template_path, repo_root, workdir, rlimit=60, extra_args=None, mutate=None, threads=8):
+    """runs every variant of the unit (in parallel) and merges them into one UnitResult:
+    a function counts as verified only if every variant that checks it verifies it"""
+    import concurrent.futures
+    names, vargs = extract.template_variants(template_path)
+    if names == ['main'] and not vargs:
+        return run_variant(template_path, repo_root, workdir, rlimit, extra_args, mutate, threads, 'main')
+    t0 = time.time()
+    with concurrent.futures.ThreadPoolExecutor(max_workers=len(names)) as ex:
+        futs = [ex.submit(run_variant, template_path, repo_root, workdir, rlimit,
+                          (extra_args or []) + vargs.get(v, []), mutate, max(2, threads // 2), v) for v in names]
+        parts = [f.result() for f in futs]
+    main = parts[0]
+    main.variants = {p.variant: {'status': p.status, 'reason': p.reason, 'wall_s': round(p.wall_s, 2), 'cmd': p.cmd,
+                                 'functions': {k: v['success'] for k, v in p.functions.items()}} for p in parts}
+    main.cmd = ' ; '.join(p.cmd for p in parts if p.cmd)
+    for p in parts[1:]:
+        if p.status != 'inconclusive' and not p.functions:
+            p.status, p.reason = 'inconclusive', 'variant verified no function'
+        if p.status == 'inconclusive' and main.status != 'inconclusive':
+            main.status, main.reason = 'inconclusive', 'variant %s: %s' % (p.variant, p.reason)
+        for k, v in p.functions.items():
+            ent = main.functions.get(k)
+            if ent is None:
+                main.functions[k] = dict(v)
+            else:
+                ent['success'] = ent['success'] and v['success']
+                ent['time_us'] += v['time_us']
+                ent['rlimit'] += v['rlimit']
+        for e in p.errors:
+            e = dict(e)
+            e['message'] = '[case %s] %s' % (p.variant, e['message'])
+            main.errors.append(e)
+        main.smt_ms += p.smt_ms
+        if p.status == 'failed' and main.status == 'ok':
+            main.status = 'failed'
+        for t in p.trusted:
+            if t not in main.trusted:
+                main.trusted.append(t)
+    main.wall_s = time.time() - t0
+    return main
